@@ -76,17 +76,62 @@ type FileSpec struct {
 	Removed bool   `json:"removed,omitempty"` // entries of this file get State=Removed
 }
 
+type RuleSwitch struct {
+	MatchKind string   `json:"match_kind,omitempty"` // "" (every rule) | "alerting" | "recording"
+	Enable    []string `json:"enable,omitempty"`
+	Disable   []string `json:"disable,omitempty"`
+	First     bool     `json:"first,omitempty"` // rendered before the other rule blocks
+}
+
+func (rs RuleSwitch) hcl() string {
+	var b strings.Builder
+	b.WriteString("rule {\n")
+	if rs.MatchKind != "" {
+		fmt.Fprintf(&b, "  match {\n    kind = %q\n  }\n", rs.MatchKind)
+	}
+	if len(rs.Enable) > 0 {
+		fmt.Fprintf(&b, "  enable = [%s]\n", quoteList(rs.Enable))
+	}
+	if len(rs.Disable) > 0 {
+		fmt.Fprintf(&b, "  disable = [%s]\n", quoteList(rs.Disable))
+	}
+	b.WriteString("}\n")
+	return b.String()
+}
+
+// ruleEnables: does a baseline rule block switch name on for rules of this kind (and none switch it off)?
+func ruleEnables(sw []RuleSwitch, kind, name string) bool {
+	on := false
+	for _, rs := range sw {
+		if rs.MatchKind != "" && rs.MatchKind != kind {
+			continue
+		}
+		if slices.Contains(rs.Disable, name) {
+			return false
+		}
+		if slices.Contains(rs.Enable, name) {
+			on = true
+		}
+	}
+	return on
+}
+
 type Case struct {
-	Kind      string           `json:"kind"` // "toggle" | "binary" | "meta"
-	Files     []FileSpec       `json:"files"`
-	Config    string           `json:"config"` // baseline HCL; @URL@ = fake server
-	ChecksBlk string           `json:"checks_block,omitempty"`
-	Name      string           `json:"name"`
-	Mechanism string           `json:"mechanism"`
-	RulePos   string           `json:"rule_pos,omitempty"` // rule{disable}: "first" | "last" | "merge"
-	DB        promsrv.RelDB    `json:"db"`
-	Fixtures  promsrv.Fixtures `json:"fixtures"`
-	Class     string           `json:"class,omitempty"`
+	Kind      string     `json:"kind"` // "toggle" | "binary" | "meta"
+	Files     []FileSpec `json:"files"`
+	Config    string     `json:"config"` // baseline HCL; @URL@ = fake server
+	ChecksBlk string     `json:"checks_block,omitempty"`
+	Name      string     `json:"name"`
+	Mechanism string     `json:"mechanism"`
+	RulePos   string     `json:"rule_pos,omitempty"` // rule{disable}: "first" | "last" | "merge"
+	// Switches: baseline `rule { [match { kind = ... }] enable = [...] disable = [...] }` blocks, and names the
+	// baseline already lists in checks { disabled = [...] }. Documented semantics (docs/configuration.md): a rule
+	// block's `enable` overrides the global disabled list for the rules it matches, `disable` beats `enable`.
+	Switches     []RuleSwitch     `json:"switches,omitempty"`
+	BaseDisabled []string         `json:"base_disabled,omitempty"`
+	DB           promsrv.RelDB    `json:"db"`
+	Fixtures     promsrv.Fixtures `json:"fixtures"`
+	Class        string           `json:"class,omitempty"`
 }
 
 // ---------------------------------------------------------------------------
@@ -99,6 +144,7 @@ type problem struct {
 	Reporter string `json:"reporter"`
 	Summary  string `json:"summary"`
 	Severity string `json:"severity"`
+	Kind     string `json:"kind,omitempty"` // "alerting" | "recording" | "" (not part of the key)
 }
 
 func (p problem) key() string {
@@ -125,6 +171,14 @@ type variant struct {
 // buildConfig renders the HCL for a variant.
 func buildConfig(c Case, v variant, url string) string {
 	cfg := strings.ReplaceAll(c.Config, urlMark, url)
+	for _, rs := range c.Switches {
+		if rs.First {
+			cfg = rs.hcl() + cfg
+		} else {
+			cfg += rs.hcl()
+		}
+	}
+	v.cfgDisabled = append(append([]string{}, c.BaseDisabled...), v.cfgDisabled...)
 	var b strings.Builder
 	if len(v.cfgDisabled) > 0 || len(v.cfgEnabled) > 0 || v.noFilter {
 		b.WriteString("checks {\n")
@@ -157,6 +211,9 @@ func buildConfig(c Case, v variant, url string) string {
 		return b.String() + cfg + rd
 	}
 }
+
+// baseConfig is the baseline configuration text (fake server URL not substituted).
+func baseConfig(c Case) string { return buildConfig(c, variant{}, urlMark) }
 
 func quoteList(l []string) string {
 	q := make([]string, len(l))
@@ -270,6 +327,13 @@ func run(c Case, v variant, url string, metaCheck bool) (res runResult) {
 						check.String(), check.Meta().Online, docOnline, check.Reporter()))
 				}
 			}
+			kind := ""
+			switch {
+			case entry.Rule.AlertingRule != nil:
+				kind = "alerting"
+			case entry.Rule.RecordingRule != nil:
+				kind = "recording"
+			}
 			for _, p := range check.Check(ctx, entry, entries) {
 				res.Problems = append(res.Problems, problem{
 					File:     strings.TrimPrefix(strings.TrimPrefix(entry.Path.Name, lr.Dir), "/"),
@@ -278,6 +342,7 @@ func run(c Case, v variant, url string, metaCheck bool) (res runResult) {
 					Reporter: p.Reporter,
 					Summary:  p.Summary,
 					Severity: p.Severity.String(),
+					Kind:     kind,
 				})
 			}
 		}
@@ -313,11 +378,18 @@ func diffSets(want, got map[string]int) (missing, extra []string) {
 }
 
 // expected computes the problem list the property demands for the variant, from the baseline list.
-func expected(base []problem, name, mechanism string) []problem {
+// The global disabled list (checks{disabled}, --disabled, and what --offline adds to it) is documented to be
+// overridden by a matching `rule { enable = [...] }` block, so problems of rules such a block covers stay; a
+// `rule { disable = [...] }` block beats everything; an enabled list admits nothing but the listed names.
+func expected(c Case, base []problem, name, mechanism string) []problem {
 	var out []problem
 	for _, p := range base {
 		switch mechanism {
-		case mCfgDisabled, mCLIDisabled, mRuleDisable:
+		case mCfgDisabled, mCLIDisabled:
+			if p.Reporter != name || ruleEnables(c.Switches, p.Kind, name) {
+				out = append(out, p)
+			}
+		case mRuleDisable:
 			if p.Reporter != name {
 				out = append(out, p)
 			}
@@ -326,7 +398,7 @@ func expected(base []problem, name, mechanism string) []problem {
 				out = append(out, p)
 			}
 		case mOffline:
-			if !slices.Contains(documentedOnline, p.Reporter) {
+			if !slices.Contains(documentedOnline, p.Reporter) || ruleEnables(c.Switches, p.Kind, p.Reporter) {
 				out = append(out, p)
 			}
 		case mDefault:
@@ -336,8 +408,8 @@ func expected(base []problem, name, mechanism string) []problem {
 	return out
 }
 
-func compare(base, got []problem, name, mechanism string) error {
-	want := expected(base, name, mechanism)
+func compare(c Case, base, got []problem, name, mechanism string) error {
+	want := expected(c, base, name, mechanism)
 	missing, extra := diffSets(multiset(want), multiset(got))
 	if len(missing) == 0 && len(extra) == 0 {
 		return nil
@@ -410,7 +482,7 @@ func checkCase(c Case, srv *sharedServer, base *runResult) (nontrivial bool, err
 	} else {
 		nontrivial = rep[c.Name] > 0 && len(rep) > 1
 	}
-	return nontrivial, compare(base.Problems, got.Problems, c.Name, c.Mechanism)
+	return nontrivial, compare(c, base.Problems, got.Problems, c.Name, c.Mechanism)
 }
 
 // newServer points the per-process fake server at the case's database and fixtures (cases run one at a time).
@@ -685,6 +757,29 @@ func genDoc(t *rapid.T) Case {
 		c.Config = fmt.Sprintf("# baseline: %s disabled through a rule block\nrule {\n  disable = [%q]\n}\n", m, m) + c.Config
 		c.Class += ";pre-disabled"
 	}
+	// baseline rule{enable}/rule{disable} blocks, with and without match, sometimes together with the name being
+	// listed in checks{disabled} (the documented "disabled globally, enabled for matching rules" set-up)
+	nsw := rapid.SampledFrom([]int{0, 1, 1, 2}).Draw(t, "nswitches")
+	for i := 0; i < nsw; i++ {
+		lbl := fmt.Sprintf("sw%d", i)
+		rs := RuleSwitch{
+			MatchKind: rapid.SampledFrom([]string{"", "alerting", "recording"}).Draw(t, lbl+".kind"),
+			First:     rapid.Bool().Draw(t, lbl+".first"),
+		}
+		x := rapid.SampledFrom(checks.CheckNames).Draw(t, lbl+".name")
+		if rapid.IntRange(0, 3).Draw(t, lbl+".disable") == 0 {
+			rs.Disable = []string{x}
+		} else {
+			rs.Enable = []string{x}
+			if rapid.Bool().Draw(t, lbl+".alsoDisabledGlobally") {
+				c.BaseDisabled = append(c.BaseDisabled, x)
+			}
+		}
+		c.Switches = append(c.Switches, rs)
+	}
+	if nsw > 0 {
+		c.Class += fmt.Sprintf(";switches=%d", nsw)
+	}
 	return c
 }
 
@@ -747,7 +842,7 @@ func TestPropToggle(t *testing.T) {
 			if errors.Is(err, errInfra) {
 				rt.Fatalf("%v", err) // a rejected configuration or a crash: no recorded case = inconclusive
 			}
-			rec.Case(cls, nontrivial, cls+"\x00"+c.Config+"\x00"+filesKey(c.Files), func() any { return sample(c, base.Problems) })
+			rec.Case(cls, nontrivial, cls+"\x00"+baseConfig(c)+"\x00"+filesKey(c.Files), func() any { return sample(c, base.Problems) })
 			if err != nil {
 				if id, ok := known[knownClass(c, err)]; ok {
 					rec.KnownHit(id, c)
@@ -755,7 +850,7 @@ func TestPropToggle(t *testing.T) {
 				}
 				rec.Fail(c, err)
 				focus = &[2]string{c.Name, c.Mechanism}
-				rt.Fatalf("%v\n--- config ---\n%s\n--- files ---\n%s", err, c.Config, filesKey(c.Files))
+				rt.Fatalf("%v\n--- config ---\n%s\n--- files ---\n%s", err, baseConfig(c), filesKey(c.Files))
 			}
 		}
 	})
@@ -771,7 +866,7 @@ func filesKey(fs []FileSpec) string {
 
 func sample(c Case, base []problem) any {
 	return map[string]any{"name": c.Name, "mechanism": c.Mechanism, "class": c.Class, "baseline_reporters": reporters(base),
-		"config": c.Config, "files": c.Files}
+		"config": baseConfig(c), "files": c.Files}
 }
 
 // knownClass names the listed structural class a failing case falls into ("" = none).
@@ -816,7 +911,7 @@ type jsonReport struct {
 	Lines    []int  `json:"lines"`
 }
 
-func runBinary(bin string, c Case, url string, flags []string) ([]problem, error) {
+func runBinary(bin string, c Case, url string, flags []string, v variant) ([]problem, error) {
 	dir, err := os.MkdirTemp("", "c08bin-")
 	if err != nil {
 		return nil, err
@@ -833,7 +928,7 @@ func runBinary(bin string, c Case, url string, flags []string) ([]problem, error
 		}
 		paths = append(paths, f.Name)
 	}
-	if err := os.WriteFile(filepath.Join(dir, ".pint.hcl"), []byte(strings.ReplaceAll(c.Config, urlMark, url)), 0o644); err != nil {
+	if err := os.WriteFile(filepath.Join(dir, ".pint.hcl"), []byte(buildConfig(c, v, url)), 0o644); err != nil {
 		return nil, err
 	}
 	args := append([]string{"--no-color", "--log-level", "error"}, flags...)
@@ -891,15 +986,11 @@ func binFlags(c Case) []string {
 func checkBinaryCase(bin string, c Case, srv *sharedServer, base []problem) (bool, error) {
 	var err error
 	if base == nil {
-		if base, err = runBinary(bin, c, srv.URL, nil); err != nil {
+		if base, err = runBinary(bin, c, srv.URL, nil, variant{}); err != nil {
 			return false, fmt.Errorf("baseline: %w", err)
 		}
 	}
-	vc := c
-	if c.Mechanism == mDefault {
-		vc.Config = "checks {\n  enabled = []\n}\n" + c.Config
-	}
-	got, err := runBinary(bin, vc, srv.URL, binFlags(c))
+	got, err := runBinary(bin, c, srv.URL, binFlags(c), variant{noFilter: c.Mechanism == mDefault})
 	if err != nil {
 		return false, err
 	}
@@ -908,7 +999,7 @@ func checkBinaryCase(bin string, c Case, srv *sharedServer, base []problem) (boo
 	if c.Mechanism == mOffline || c.Mechanism == mDefault {
 		nontrivial = len(rep) > 1
 	}
-	return nontrivial, compare(base, got, c.Name, c.Mechanism)
+	return nontrivial, compare(c, base, got, c.Name, c.Mechanism)
 }
 
 func TestPropBinary(t *testing.T) {
@@ -922,9 +1013,12 @@ func TestPropBinary(t *testing.T) {
 	rapid.Check(t, func(rt *rapid.T) {
 		doc := genDoc(rt)
 		doc.Kind = "binary"
+		for i := range doc.Switches { // the JSON report carries no rule kind: keep rule-block switches match-less
+			doc.Switches[i].MatchKind = ""
+		}
 		srv := newServer(doc)
 		defer srv.Close()
-		base, err := runBinary(bin, doc, srv.URL, nil)
+		base, err := runBinary(bin, doc, srv.URL, nil, variant{})
 		if err != nil {
 			rt.Fatalf("baseline: %v", err) // no recorded case: inconclusive
 		}
@@ -941,7 +1035,7 @@ func TestPropBinary(t *testing.T) {
 				c.Name, c.Mechanism = n, m
 				nontrivial, err := checkBinaryCase(bin, c, srv, base)
 				cls := "binary " + m + " " + n
-				rec.Case(cls, nontrivial, cls+"\x00"+c.Config+"\x00"+filesKey(c.Files), func() any { return sample(c, base) })
+				rec.Case(cls, nontrivial, cls+"\x00"+baseConfig(c)+"\x00"+filesKey(c.Files), func() any { return sample(c, base) })
 				if errors.Is(err, errInfra) {
 					rt.Fatalf("%v", err) // no recorded case: inconclusive
 				}
@@ -952,7 +1046,7 @@ func TestPropBinary(t *testing.T) {
 					}
 					rec.Fail(c, err)
 					focus = &[2]string{n, m}
-					rt.Fatalf("%v\n--- config ---\n%s\n--- files ---\n%s", err, c.Config, filesKey(c.Files))
+					rt.Fatalf("%v\n--- config ---\n%s\n--- files ---\n%s", err, baseConfig(c), filesKey(c.Files))
 				}
 			}
 		}
